@@ -103,7 +103,8 @@ def sizesOK (spec : Spec) (i : Nat) (v : View) (trailingZero : Bool) : SizeVerdi
       { ok := false, why := s!"packet {v.packetLen} > PacketSize {p.packetSize} although it ends in PADDING the spec did not ask for" }
     else { ok := true }
   else
-    let m := if spec.udpMin = 0 then 1200 else spec.udpMin
+    -- the UDP minimum (default 1200), which the packet buffer caps
+    let m := min (if spec.udpMin = 0 then 1200 else spec.udpMin) maxPacketBufferSize
     if v.datagramLen ≠ max v.packetLen m then { ok := false, why := s!"datagram {v.datagramLen} packet {v.packetLen} minimum {m}" }
     else { ok := true }
 
